@@ -420,6 +420,16 @@ def decompose (h : Heap) (x : Nat) : Except Err Heap :=
   | .error e => .error e
   | .ok h1 => .ok (wipe h1 h1.cap (some x))
 
+/-- `clear(decompose=True)` (element.py:2132-2144): `for element in self.contents[:]: element.decompose()` over a snapshot -/
+def decomposeAll (h : Heap) : List Nat → Except Err Heap
+  | [] => .ok h
+  | c :: cs =>
+    match decompose h c with
+    | .error e => .error e
+    | .ok h1 => decomposeAll h1 cs
+
+def clearDecompose (h : Heap) (t : Nat) : Except Err Heap := decomposeAll h (h.kids t)
+
 /-- indices `i` with `contents[i]`, `contents[i+1]` both non-Preformatted strings (element.py:2118-2136) -/
 def smoothMarks (h : Heap) : Nat → List Nat → List Nat
   | _, [] => []
@@ -511,6 +521,7 @@ inductive Op where
   | extract (x : Nat)
   | clear (t : Nat)
   | decompose (x : Nat)
+  | clearDecompose (t : Nat)
   | smooth (t : Nat)
   | setString (t : Nat) (k : Kind) (v : PStr)
 deriving Repr
@@ -528,6 +539,7 @@ def step (h : Heap) : Op → Except Err Heap
   | .extract x => extract h x
   | .clear t => if (h.kind t).isTag then clear h t else .error .crash
   | .decompose x => decompose h x
+  | .clearDecompose t => if (h.kind t).isTag then clearDecompose h t else .error .crash
   | .smooth t => if (h.kind t).isTag then smooth h t else .error .crash
   | .setString t k v => if (h.kind t).isTag then setString h t k v else .error .crash
 
